@@ -11,7 +11,7 @@ from .xlref.values import outcome_matches
 
 def judge_book(ctx, prop, spec, targets, valuations, *, exact=False, err_exact=False, classify=None, nontrivial=None,
                name='wb', monitor='reference-model', strict_text=False, runtime_monitor=True, now=None, per_cell=False,
-               case_extra=None, on_result=None, empty_text_is_blank=False, same_executor=True, flag_consistency=True):
+               case_extra=None, on_result=None, empty_text_is_blank=False, same_executor=True, flag_consistency=True, unjudged=None):
     """targets: [(sheet_idx, addr)] formula cells to judge; valuations: list of [(sheet_idx, addr, value)] override lists.
     classify(case, out, outs) -> known-finding tag | None ; nontrivial(case, outs) -> bool"""
     r = ctx.r
@@ -58,6 +58,9 @@ def judge_book(ctx, prop, spec, targets, valuations, *, exact=False, err_exact=F
             except (evalr.NoOpinion, ParseError, evalr.Cycle) as e:
                 r.count('ref_no_opinion')
                 r.seen('ref_no_opinion_reasons', str(e)[:60])
+                continue
+            if unjudged is not None and unjudged(formula, outs):
+                r.count('ref_outcome_unjudged')
                 continue
             for fl in flags:
                 r.count('silent_clause:' + fl)
